@@ -362,7 +362,7 @@ func parseEmbed(t *Tree, start Pos) (Node, error) {
 				}
 				break
 			} else if tok.value == "block" {
-				n, err := parseBlock(t, start)
+				n, err := parseBlock(t, tok.Pos)
 				if err != nil {
 					return nil, err
 				}
